@@ -1,4 +1,4 @@
-import AranyaV.Proofs.DiskReach
+import AranyaV.Proofs.DiskHist
 /-!
 # C15 — File-backed graph storage survives crashes
 
@@ -70,11 +70,12 @@ theorem create_inv (hL : L.OK) : WInv L ck (Writer.create L).1 Disk.empty none L
     intro s; unfold loadValid; rw [loadRoot_zero (fun _ _ => rfl)]
   have hl : ∀ s, lenOK Disk.empty.durable s := by
     intro s; unfold lenOK lenAt Disk.empty rootMax; simp
-  refine ⟨⟨Or.inl rfl, hl _, hl _, hz _, ?_, ?_, ?_, ?_, ?_, ?_⟩, ?_, ?_⟩
+  refine ⟨⟨Or.inl rfl, hl _, hl _, hz _, ?_, ?_, ?_, ?_, ?_, ?_, ?_⟩, ?_, ?_⟩
   · intro r' h; rw [hz] at h; cases h
   · intro r h; cases h
   · intro p h; cases h
   · simp [Writer.create, Root.new]
+  · intro r h; cases h
   · intro r h; cases h
   · intro rec h; cases h
   · simp [Writer.create, Root.new]
@@ -97,7 +98,7 @@ theorem run_safeAt (hL : L.OK) (calls : List Call) (h : RunHyps L ck calls) (n :
     (χ : List (List Bool)) :
     SafeAt L ck (crashImage L ck calls n χ) (doneAt L ck calls n) (progAt L ck calls n)
       (runRecs L ck calls) := by
-  have := run_safe hL calls _ _ _ _ _ (create_inv (ck := ck) hL) h.1 h.2 (n - 2) χ
+  have := (run_safe hL calls _ _ _ _ _ (create_inv (ck := ck) hL) h.1 h.2 (n - 2) χ).1
   unfold crashImage doneAt progAt runRecs
   rw [exec_run]
   simpa using this
@@ -169,39 +170,6 @@ theorem no_future_data (hL : L.OK) (calls : List Call) (h : RunHyps L ck calls)
   have : rec.off < rec.end_ := by unfold Rec.end_; omega
   omega
 
-/-- what `open` decides: the slot it takes the root from holds that root and the other slot holds
-nothing newer; the other slot is scheduled for the next root write -/
-theorem open_spec (hL : L.OK) (img : Img) (w : Writer) (ho : Writer.open L ck img = some w) :
-    ∃ chosen, (chosen = L.rootA ∨ chosen = L.rootB) ∧ w.nextRoot = L.other chosen ∧
-      loadValid ck img chosen = some w.root ∧
-      ∀ r', loadValid ck img (L.other chosen) = some r' → r'.gen ≤ w.root.gen := by
-  unfold Writer.open at ho
-  cases ha : loadValid ck img L.rootA with
-  | none =>
-    cases hb : loadValid ck img L.rootB with
-    | none => simp [ha, hb] at ho
-    | some b =>
-      simp only [ha, hb, Option.some.injEq] at ho
-      subst ho
-      exact ⟨L.rootB, Or.inr rfl, rfl, hb, fun r' h => by rw [Layout.other_B hL, ha] at h; cases h⟩
-  | some a =>
-    cases hb : loadValid ck img L.rootB with
-    | none =>
-      simp only [ha, hb, Option.some.injEq] at ho
-      subst ho
-      exact ⟨L.rootA, Or.inl rfl, rfl, ha, fun r' h => by rw [L.other_A, hb] at h; cases h⟩
-    | some b =>
-      simp only [ha, hb] at ho
-      by_cases hlt : a.gen < b.gen
-      · simp only [hlt, if_true, Option.some.injEq] at ho
-        subst ho
-        refine ⟨L.rootB, Or.inr rfl, rfl, hb, fun r' h => ?_⟩
-        rw [Layout.other_B hL, ha] at h; cases h; exact Nat.le_of_lt hlt
-      · simp only [hlt, if_false, Option.some.injEq] at ho
-        subst ho
-        refine ⟨L.rootA, Or.inl rfl, rfl, ha, fun r' h => ?_⟩
-        rw [L.other_A, hb] at h; cases h; exact Nat.le_of_not_lt hlt
-
 /-- **slots_alternate.**  On *any* image on which `open` succeeds, the slot it schedules for the
 next root write is not the slot it took the root from, and holds nothing newer; the next commit
 writes exactly that slot (its last three I/O calls) and flips again.  So the newest valid root
@@ -223,6 +191,103 @@ theorem slots_alternate (hL : L.OK) (img : Img) (w : Writer) (ho : Writer.open L
     refine ⟨commit_next L ck w heads fact, ?_⟩
     rw [commit_ops]
     rw [List.drop_left' (by simp)]
+
+/-! ## histories with any number of crashes: `create; (calls; crash χ; open)*`
+
+`HState.init` is the state after `create` returned (a crash inside `create` is covered by
+`recover_cases` with `n < 2`).  A history is a list of `Segment`s `(calls, n, χ)`; `histFrom`
+runs them: each segment executes its calls from the current writer on the current medium,
+crashes after `n` I/O calls with fault choice `χ`, and `open`s the crash image; the recovered
+image — stale bytes beyond the recovered `free_offset` and a stale / torn record in the other
+slot included — is the medium of the next segment.  The hypotheses `ChecksumOK`/`Bounded`
+(`HistHyps`) and `WF` (`HistWF`) are stated per segment against the state it starts from. -/
+
+theorem init_inv (hL : L.OK) : HInv L ck (HState.init L) := ⟨L.freeStart, create_inv hL⟩
+
+/-- **recovered_image_inv.**  The invariant that holds of every image from which `open`
+succeeds after a crash: the opened writer on that image satisfies the writer invariant again
+(recovered root in the slot other than `next_root`, nothing as new in `next_root`, every item
+below the recovered frontier intact), so everything proved for a run from `create` holds for a
+run from the recovered image. -/
+theorem recovered_image_inv (hL : L.OK) {st st' : HState} {s : Segment} (hi : HInv L ck st)
+    (hck : ChecksumOK L ck st.w st.d s.calls) (hbd : Bounded L ck st.w s.calls)
+    (hn : st.next L ck s = some st') : HInv L ck st' :=
+  reopen_inv hL hi hck hbd hn
+
+/-- **recover_cases_multi.**  After any history of crashes and successful reopens, for every
+further list of calls, crash point and fault choice: `open` fails only if no commit ever
+completed (`doneFrom … = none`), otherwise returns the last completed commit — which, if no
+commit completed since the last reopen, is the root that reopen recovered (`st.done`) — or the
+commit in progress. -/
+theorem recover_cases_multi (hL : L.OK) (segs : List Segment) (st : HState)
+    (hh : HistHyps L ck (HState.init L) segs) (h : histFrom L ck (HState.init L) segs = some st)
+    (s : Segment) (hck : ChecksumOK L ck st.w st.d s.calls) (hbd : Bounded L ck st.w s.calls) :
+    match Writer.open L ck (st.image L ck s) with
+    | none => doneFrom L ck st.w st.done s.calls s.n = none
+    | some w => some w.root = doneFrom L ck st.w st.done s.calls s.n ∨
+        some w.root = progFrom L ck st.w s.calls s.n :=
+  (hist_safe hL segs st (init_inv hL) hh h s hck hbd).1.1
+
+/-- once a reopen has succeeded, no later crash makes `open` fail -/
+theorem reopen_succeeds_multi (hL : L.OK) (segs : List Segment) (hne : segs ≠ []) (st : HState)
+    (hh : HistHyps L ck (HState.init L) segs) (h : histFrom L ck (HState.init L) segs = some st)
+    (s : Segment) (hck : ChecksumOK L ck st.w st.d s.calls) (hbd : Bounded L ck st.w s.calls) :
+    ∃ w, Writer.open L ck (st.image L ck s) = some w := by
+  have hc := recover_cases_multi hL segs st hh h s hck hbd
+  have hd := hist_done segs _ _ h (Or.inl hne)
+  have hs := doneFrom_isSome L ck s.calls st.w st.done s.n hd
+  cases ho : Writer.open L ck (st.image L ck s) with
+  | none => rw [ho] at hc; rw [hc] at hs; cases hs
+  | some w => exact ⟨w, rfl⟩
+
+/-- **records_intact_multi.**  Every item of any era that survived all earlier reopens
+(`st.recs`) or was appended in the current era, and that ends at or below the recovered
+`free_offset`, is byte-identical in the crash image. -/
+theorem records_intact_multi (hL : L.OK) (segs : List Segment) (st : HState)
+    (hh : HistHyps L ck (HState.init L) segs) (h : histFrom L ck (HState.init L) segs = some st)
+    (s : Segment) (hck : ChecksumOK L ck st.w st.d s.calls) (hbd : Bounded L ck st.w s.calls)
+    (w : Writer) (ho : Writer.open L ck (st.image L ck s) = some w) :
+    ∀ rec ∈ st.allRecs L ck s, (rec.end_ : Int) ≤ w.root.free → agreeRec (st.image L ck s) rec :=
+  (hist_safe hL segs st (init_inv hL) hh h s hck hbd).1.2 w ho
+
+/-- **reachable_durable_multi.**  With the caller discipline in every era (`HistWF`: after a
+reopen only offsets of surviving items are known), everything reachable from the root recovered
+after the (k+1)-th crash is an item lying entirely below the recovered `free_offset`, intact in
+the crash image. -/
+theorem reachable_durable_multi (hL : L.OK) (segs : List Segment) (st : HState)
+    (hh : HistHyps L ck (HState.init L) segs) (hwf : HistWF L ck (HState.init L) segs)
+    (h : histFrom L ck (HState.init L) segs = some st)
+    (s : Segment) (hck : ChecksumOK L ck st.w st.d s.calls) (hbd : Bounded L ck st.w s.calls)
+    (hwfs : WF L ck st.w (st.recs.map (·.off)) s.calls)
+    (w : Writer) (ho : Writer.open L ck (st.image L ck s) = some w) (o : Nat)
+    (hr : Reach (st.allRecs L ck s) w.root o) :
+    ∃ rec ∈ st.allRecs L ck s, rec.off = o ∧ (rec.end_ : Int) ≤ w.root.free ∧
+      agreeRec (st.image L ck s) rec := by
+  have hri := hist_rinv hL segs _ _ (init_inv hL) (init_rinv L) hh hwf h
+  obtain ⟨hrefs, hroots⟩ := era_reach (L := L) (ck := ck) (s := s) hri hwfs
+  have hc := recover_cases_multi hL segs st hh h s hck hbd
+  rw [ho] at hc
+  have hmem : st.done = some w.root ∨ w.root ∈ commitRoots L ck st.w s.calls := by
+    rcases hc with h' | h'
+    · rcases doneFrom_mem L ck s.calls _ _ _ _ h'.symm with h'' | h''
+      · exact Or.inl h''
+      · exact Or.inr h''
+    · exact Or.inr (progFrom_mem L ck s.calls _ _ _ h'.symm)
+  obtain ⟨hhd, hft⟩ := hroots w.root hmem
+  obtain ⟨rec, hm, ho', he⟩ := reach_below hrefs hhd hft hr
+  exact ⟨rec, hm, ho', he, records_intact_multi hL segs st hh h s hck hbd w ho rec hm he⟩
+
+/-- **no_future_data_multi** -/
+theorem no_future_data_multi (hL : L.OK) (segs : List Segment) (st : HState)
+    (hh : HistHyps L ck (HState.init L) segs) (hwf : HistWF L ck (HState.init L) segs)
+    (h : histFrom L ck (HState.init L) segs = some st)
+    (s : Segment) (hck : ChecksumOK L ck st.w st.d s.calls) (hbd : Bounded L ck st.w s.calls)
+    (hwfs : WF L ck st.w (st.recs.map (·.off)) s.calls)
+    (w : Writer) (ho : Writer.open L ck (st.image L ck s) = some w) (o : Nat)
+    (hr : Reach (st.allRecs L ck s) w.root o) : (o : Int) < w.root.free := by
+  obtain ⟨rec, _, ho', he, _⟩ := reachable_durable_multi hL segs st hh hwf h s hck hbd hwfs w ho o hr
+  have : rec.off < rec.end_ := by unfold Rec.end_; omega
+  omega
 
 /-! ## the theorems for the constants of the current source -/
 
@@ -284,25 +349,46 @@ theorem exCk_valid {img : Img} {s : Nat} {r : Root} (h : loadValid exCk img s = 
     · cases h
   · cases h
 
-example : Layout.real.OK ∧ RunHyps Layout.real exCk exCalls ∧
-    WF Layout.real exCk (Writer.create Layout.real).1 [] exCalls := by
-  have hroot : (Writer.commit Layout.real exCk
-      (Writer.step Layout.real exCk (Writer.step Layout.real exCk (Writer.create Layout.real).1
-        (.append [1, 2] [])).1 (.append [9] [12288])).1 [3] 12288).1.root = exRoot := by decide
-  refine ⟨layout_ok, ⟨⟨trivial, trivial, ?_, trivial⟩, ⟨trivial, trivial, ?_, trivial⟩⟩, ?_⟩
+theorem exRoot_eq : (Writer.commit Layout.real exCk
+    (Writer.step Layout.real exCk (Writer.step Layout.real exCk (Writer.create Layout.real).1
+      (.append [1, 2] [])).1 (.append [9] [12288])).1 [3] 12288).1.root = exRoot := by decide
+
+theorem exHyps : RunHyps Layout.real exCk exCalls := by
+  refine ⟨⟨trivial, trivial, ?_, trivial⟩, ⟨trivial, trivial, ?_, trivial⟩⟩
   · intro m1 m2 r' h
     left
     rw [exCk_valid h]
-    exact hroot.symm
+    exact exRoot_eq.symm
   · show Root.Bounded _
-    rw [hroot]
+    rw [exRoot_eq]
     exact ⟨by decide, by intro v h; cases h; decide, by intro v h; cases h; decide, by decide, by decide⟩
-  · simp only [WF, exCalls]
-    decide
+
+example : Layout.real.OK ∧ RunHyps Layout.real exCk exCalls ∧
+    WF Layout.real exCk (Writer.create Layout.real).1 [] exCalls := by
+  refine ⟨layout_ok, exHyps, ?_⟩
+  simp only [WF, exCalls]
+  decide
 
 /-- and in that run both outcomes of `recover_cases` occur: with the root write torn away the
 image does not open (no commit had completed); with everything kept it opens as commit 1 -/
 example : doneAt Layout.real exCk exCalls 10 = none ∧ progAt Layout.real exCk exCalls 10 = some exRoot ∧
     doneAt Layout.real exCk exCalls 12 = some exRoot := by decide
+
+/-! non-vacuity of the multi-crash theorems: the run above crashes with its root write complete
+but the final barrier missing (10 I/O calls after `create`, everything pending kept), the image
+reopens as commit 1, and a second era (an append torn in the middle) starts from it; all
+hypotheses of `recover_cases_multi` hold for this history. -/
+
+def exSeg1 : Segment := ⟨exCalls, 10, [[true, true, true, true], List.replicate 19 true]⟩
+def exSeg2 : Segment := ⟨[.append [7, 7, 7] [12299]], 3, [[true, true, false, true]]⟩
+
+example : (histFrom Layout.real exCk (HState.init Layout.real) [exSeg1]).map (fun st => (st.done, st.w.nextRoot))
+    = some (some exRoot, Layout.real.rootB) := by decide +kernel
+
+example : HistHyps Layout.real exCk (HState.init Layout.real) [exSeg1, exSeg2] := by
+  refine ⟨exHyps.1, exHyps.2, ?_⟩
+  split
+  · trivial
+  · exact ⟨⟨trivial, trivial⟩, ⟨trivial, trivial⟩, by split <;> trivial⟩
 
 end AranyaV.Disk
